@@ -33,6 +33,10 @@ pub enum GOp {
     /// `contains::<T>()` (which = 0), `contains_at_top` (1), `find(..).is_ok()` (2): presence is
     /// not a borrow - live guards of any kind never change the answer
     Present { up: u8, t: u8, which: u8 },
+    /// one more shared guard on the best-individual memory (kept until the end of the history)
+    AcquireBestShared,
+    /// `best_objective_value()` / `best_individual()`: quiet readers, never refused next to readers
+    BestValue,
 }
 
 #[derive(Clone, Debug, Serialize, Deserialize)]
@@ -156,6 +160,8 @@ impl GModel {
                 }
                 GRes::Bool(if *which == 1 { self.levels[start].contains_key(t) } else { self.resolve(*up, *t).is_some() })
             }
+            GOp::AcquireBestShared => GRes::Granted,
+            GOp::BestValue => GRes::Val(BEST_MARK),
             GOp::Set { up, t, v } => match self.resolve(*up, *t) {
                 None => GRes::Opt(None),
                 Some(l) => {
@@ -223,11 +229,16 @@ fn gop_kind(op: &GOp) -> &'static str {
         GOp::TryGet { .. } => "try_get_value",
         GOp::Get { .. } => "get_value (panicking)",
         GOp::Set { .. } => "set_value",
+        GOp::AcquireBestShared => "acquire-shared (best individual)",
+        GOp::BestValue => "best_objective_value",
         GOp::Present { which: 0, .. } => "contains",
         GOp::Present { which: 1, .. } => "contains_at_top",
         GOp::Present { .. } => "find",
     }
 }
+
+/// objective value of the best-individual memory in guard histories
+const BEST_MARK: u32 = 35;
 
 pub struct Guards;
 
@@ -278,6 +289,7 @@ impl World for Guards {
                 85..=90 => GOp::TryGet { up, t },
                 91..=93 => GOp::Get { up, t },
                 94..=96 => GOp::Present { up, t, which: g.below(3) as u8 },
+                97 => if g.chance(0.5) { GOp::AcquireBestShared } else { GOp::BestValue },
                 _ => {
                     next += 1;
                     GOp::Set { up, t, v: next }
@@ -291,7 +303,11 @@ impl World for Guards {
     fn execute(&self, case: &GuardCase) -> Outcome<GuardCase> {
         let mut out = Outcome::new();
         out.evaluations = 1;
-        let st = build_state(&case.layout);
+        let mut st = build_state(&case.layout);
+        // a best-individual memory in the innermost scope, only ever borrowed shared
+        st.insert(mahf::state::common::BestIndividual::<EP>::new());
+        **st.borrow_mut::<mahf::state::common::BestIndividual<EP>>() = Some(mahf::Individual::<EP>::new(Vec::new(), mahf::SingleObjective::try_from(BEST_MARK as f64).unwrap()));
+        let st = st;
         let mut model = GModel {
             levels: case
                 .layout
@@ -305,6 +321,7 @@ impl World for Guards {
         let mut violation: Option<(Violation, usize)> = None;
         {
             let mut arena: Vec<Option<G<'_>>> = Vec::new();
+            let mut best_guards = Vec::new();
             for (i, op) in case.ops.iter().enumerate() {
                 let expected = model.apply(op, &mut out.counters);
                 out.steps += 1;
@@ -385,6 +402,19 @@ impl World for Guards {
                             Err(_) => GRes::Panicked,
                         })
                     }
+                    GOp::AcquireBestShared => match st.try_borrow::<mahf::state::common::BestIndividual<EP>>() {
+                        Ok(g) => {
+                            best_guards.push(g);
+                            GRes::Granted
+                        }
+                        Err(e) => err_res(e),
+                    },
+                    GOp::BestValue => match guarded(|| (st.best_objective_value().map(|o| o.value()), st.best_individual().map(|i| i.objective().value()))) {
+                        Ok((Some(a), Some(b))) if a == b => GRes::Val(a as u32),
+                        Ok((None, _)) | Ok((_, None)) => GRes::Opt(None),
+                        Ok(other) => GRes::Unexpected(format!("{other:?}")),
+                        Err(_) => GRes::Panicked,
+                    },
                     GOp::Present { up, t, which } => {
                         let reg = reg_at(&st, *up);
                         with_ty!(*t, T => match guarded(|| match *which {
@@ -415,7 +445,11 @@ impl World for Guards {
         }
         if violation.is_none() {
             // what was written through exclusive guards / set_value is what every later reader sees
-            let levels = snapshot(&st);
+            // (the best-individual memory is the harness' own, it is not part of the layout)
+            let mut levels = snapshot(&st);
+            for l in levels.iter_mut() {
+                l.remove(&TAG_BEST);
+            }
             let exp: Vec<BTreeMap<u8, u64>> = model
                 .levels
                 .iter()
